@@ -94,6 +94,26 @@ def run(ctx):
             rp = dict(s)
             rp["variant"] = rr["variant"]
             ctx.violation(rr["sig"], rr["detail"], rp)
+    # 3. histories: the first send times out on a busy device, its late bytes arrive while the driver is being closed, the same
+    # object is opened again and the command repeated (the contract of the second session is that of a first one)
+    hv = ["reopen/generic/rand", "reopen/network/whole", "reopen/generic/whole", "reopen/network/rand"]
+    hist = []
+    for s in scns:
+        if not s.get("early") and s["expect"][0].strip() and len(hist) < (160 if thorough else 32):
+            h = dict(s)
+            h["variant"] = hv[len(hist) % 4]
+            hist.append(h)
+    resh = ctx.run_harness("c01", hist, timeout=1800)
+    if len(resh) != len(hist):
+        raise ToolError("harness answered %d of %d histories; stderr:\n%s" % (len(resh), len(hist), ctx.last_stderr[-3000:]))
+    for h, rr in zip(hist, resh):
+        ctx.count()
+        if rr.get("sig") == "TOOL":
+            raise ToolError("history %s/%s: %s" % (h["id"], h["variant"], rr["detail"]))
+        ctx.nontriv("%s/%s" % (h["id"], h["variant"]))
+        if not rr["ok"]:
+            ctx.violation(rr["sig"], rr["detail"], h)
+    ctx.notes["reopen_histories"] = len(hist)
     ctx.sample({"scenario": scns[0]})
     ctx.sample({"scenario": scns[len(scns) // 2]})
-    ctx.traces_validated = len(res)
+    ctx.traces_validated = len(res) + len(resh)
